@@ -125,6 +125,24 @@ def run(ctx, rep):
                               "Decoder.current_sample is advanced on a path that has not passed the CRC-16 comparison")
         rep.floor("C05.release", "current_sample writes in read_frame", writes, 1)
 
+    # ---- C05.eof: end of stream is only signalled when nothing is owed ----------------------------------
+    if b is not None:
+        pf = ok.path_facts(b)
+        nn = 0
+        for bi, bl in enumerate(b.blocks):
+            if bl["cleanup"]:
+                continue
+            for st in bl["s"]:
+                rv = st["rv"]
+                if rv["r"] == "agg" and rv["adt"] == "std::option::Option" and rv["var"] == "None" and "Frame" in b.local_ty(st["d"]["l"]):
+                    nn += 1
+                    f = pf.get(bi, TOP)
+                    good = fact_match(f, "cmp", "^Eq$", "^const:0$", "total_samples") or fact_match(f, "is", "^None$", "total_samples")
+                    rep.check("C05.eof", "end of stream (Ok(None)) only when no samples are owed or the total is unknown", good, b.loc(st["sp"]),
+                              "remaining == 0, or STREAMINFO declares no total",
+                              "Decoder::read_frame can signal a clean end of stream while STREAMINFO still owes samples (truncation decoded silently); facts: %s" % fact_str(f))
+        rep.floor("C05.eof", "Ok(None) returns of read_frame", nn, 2)
+
     # ---- C05.total (KF04) --------------------------------------------------------------
     sites = error_sites(F, "TooManySamples")
     reach = cg.reach(dec_entries(F))
